@@ -1,6 +1,11 @@
-From Coq Require Import Extraction ExtrOcamlBasic NArith ZArith.
-From Storage Require Import Base.Bytes Db.Mvcc Db.Workload.
+From Coq Require Import Extraction ExtrOcamlBasic NArith ZArith List.
+From Storage Require Import Base.Bytes Db.Mvcc Db.Workload Db.RwLock Db.LockTable.
+Import ListNotations.
 Extraction Language OCaml.
 Definition force_types : nat * N * Z := (O, 0%N, 0%Z).
 Definition workload_versions (ws : list wtx) : list wstate := serial_versions wstate wtx apply_wtx empty_state ws.
-Extraction "c18_model.ml" force_types workload_versions apply_wtx eval_query eval_placed empty_state serial_answer.
+(* "D" cases: the reload-lock system of Db/RwLock.v run on the schedule the harness drives, every joined call
+   being a row without acquisitions (what Properties/C18Locks.v establishes for the generated table) *)
+Definition lock_scenario_plain (nsteps at_ : nat) (restore : bool) : option (nat * nat) :=
+  lock_scenario_plan [TStep] nsteps at_ restore.
+Extraction "c18_model.ml" force_types workload_versions apply_wtx eval_query eval_placed empty_state serial_answer lock_scenario_plain.
